@@ -820,6 +820,18 @@ impl Iterator for ProbeIter {
         self.env.event("next", &self.name, "", json!(res.unwrap_or(-1)));
         res.map(V::I)
     }
+
+    /// exact for a finite list (as for `Vec`, arrays, ranges: the common iterables), open-ended for 1,2,3,..;
+    /// not an observable event: the crate is free to ask
+    fn size_hint(&self) -> (usize, Option<usize>) {
+        match &self.items {
+            Some(v) => {
+                let left = v.len().saturating_sub(self.pos);
+                (left, Some(left))
+            },
+            None => (usize::MAX, None),
+        }
+    }
 }
 
 #[allow(dead_code)]
